@@ -39,7 +39,11 @@ def eeprom_image(serial):
 
 
 def gen_case(rng):
+    mode = rng.choice(["initialize", "scan", "scan+initialize",
+                       "scan||initialize", "scan||initialize"])
     n = rng.randint(2, 40)
+    if mode == "scan||initialize":
+        n = rng.randint(2, 6)      # few addresses: collisions are likely
     lo = rng.choice([1, 100, 1000, 30000])
     slack = rng.choice([0, 1, 2, 5, 20])
     # scan followed by initialize hands out up to 2n addresses; the range
@@ -61,7 +65,8 @@ def gen_case(rng):
         used.add(a)
         pre[i] = a
     return dict(n=n, range=[lo, hi], pre={str(k): v for k, v in pre.items()},
-                mode=rng.choice(["initialize", "scan", "scan+initialize"]),
+                mode=mode,
+                stagger=[rng.randint(0, 60) for _ in range(8)],
                 delays=[rng.choice([0.0001, 0.0002, 0.001]) for _ in
                         range(20)], rseed=rng.getrandbits(32),
                 # transport faults: some reply frames arrive truncated
@@ -109,6 +114,29 @@ def run_case(case):
                 result["truncated"] = result.get("truncated", 0) + 1
             return [(case["delays"][k[0] % len(case["delays"])], resp)]
         bus.attach(ec, loop, b, policy)
+        if case["mode"] == "scan||initialize":
+            # a scan while terminals are being initialised one by one
+            ts = [Terminal(ec) for _ in range(n)]
+            stag = case.get("stagger") or [0]
+
+            async def later(i, t):
+                for _ in range(stag[i % len(stag)]):
+                    await asyncio.sleep(0)
+                await t.initialize(relative=-i)
+
+            pick = [i for i in range(n) if (i * 7 + stag[0]) % 3 == 0] or [0]
+            rest = [i for i in range(n) if i not in pick]
+
+            async def scan():
+                for _ in range(stag[-1]):
+                    await asyncio.sleep(0)
+                result["scan"] = await ec.scan_serial_numbers()
+                # the same task goes on initialising terminals right after
+                for i in rest[:2]:
+                    await ts[i].initialize(relative=-i)
+            await asyncio.wait_for(asyncio.gather(
+                scan(), *[later(i, ts[i]) for i in pick]), 5000)
+            return
         if "scan" in case["mode"]:
             result["scan"] = await asyncio.wait_for(
                 ec.scan_serial_numbers(), 5000)
@@ -137,7 +165,12 @@ def check_case(case, res):
         res.inconc(f"wall-clock watchdog fired for {case}")
         return
     res.count("truncated_replies", result.get("truncated", 0))
-    if "error" in result and result.get("truncated"):
+    if "error" in result and case["mode"] == "scan||initialize":
+        # the scan may address a terminal whose address an initialisation
+        # has just changed: the statement does not promise success, only
+        # that whatever was handed out is unique and in range
+        res.count("failed_under_concurrent_scan")
+    elif "error" in result and result.get("truncated"):
         # a transport fault may make the initialisation fail; whatever
         # was assigned before must still be unique
         res.count("failed_under_transport_faults")
@@ -164,7 +197,8 @@ def check_case(case, res):
                       f"final addresses not distinct: {sorted(final)}",
                       case=case)
         return
-    if "positions" in result and not result.get("truncated"):
+    if "positions" in result and not result.get("truncated") and \
+            case["mode"] != "scan||initialize":
         if result["positions"] != [t.station for t in terms]:
             res.violation("unexplained:position-mismatch",
                           f"Terminal.position {result['positions'][:8]} vs "
@@ -189,13 +223,22 @@ def run_shard(params):
     res = Result()
     rng = random.Random(params["seed"] * 100297 + params["shard"])
     for i in range(params["n"]):
-        check_case(gen_case(rng), res)
+        case = gen_case(rng)
+        check_case(case, res)
+        if case["mode"] == "scan||initialize" and i % 4 == 0:
+            # sweep the start of the initialisations against the scan
+            for off in range(0, 120, 3):
+                c2 = dict(case, stagger=[off + (x % 5)
+                                         for x in case["stagger"][:-1]]
+                          + [case["stagger"][-1] % 8])
+                check_case(c2, res)
+                res.count("concurrent_sweep_points")
     return res
 
 
 def finalize(res, tier, seed):
     c = res.counters
-    for m in ("initialize", "scan", "scan+initialize"):
+    for m in ("initialize", "scan", "scan+initialize", "scan||initialize"):
         if not c.get(f"mode[{m}]"):
             res.inconc(f"mode {m} never ran")
 
